@@ -77,7 +77,7 @@ def k_lev1(ctx, xs, alphabet, brute=False, default_alphabet=False):
     ctx.sample(f"lev1:{len(alphabet)}", {"alphabet": alphabet, "n_strings": len(xs), "first": xs[:4]})
 
 
-def k_ham1(ctx, xs, alphabet, positions=None):
+def k_ham1(ctx, xs, alphabet, positions=None, positions_kind="list"):
     import pyrepseq as prs
     for x in xs:
         pos = None
@@ -89,7 +89,13 @@ def k_ham1(ctx, xs, alphabet, positions=None):
         if pos is None:
             out = ctx.call(lambda: list(prs.hamming_neighbors(x, alphabet)))
         else:
-            out = ctx.call(lambda: list(prs.hamming_neighbors(x, alphabet, variable_positions=pos)))
+            # the positions as any iterable: list, tuple, one-shot iterator, generator, set, ndarray
+            import numpy as np
+            parg = {"list": lambda: list(pos), "tuple": lambda: tuple(pos), "iter": lambda: iter(list(pos)), "generator": lambda: (p for p in pos),
+                    "set": lambda: set(pos), "ndarray": lambda: np.array(pos, dtype=int)}[positions_kind]()
+            if positions_kind in ("iter", "generator"):
+                ctx.count("variable_positions_one_shot_iterables")
+            out = ctx.call(lambda: list(prs.hamming_neighbors(x, alphabet, variable_positions=parg)))
         ctx.calls["pyrepseq.distance.hamming_neighbors"] += 1
         if not out.ok:
             ctx.violation("hamming_neighbors:raised", f"hamming_neighbors({x!r}) raised", out.describe(), None)
@@ -226,6 +232,15 @@ def generate(tier, seed):
             yield "ham1", {"xs": ch, "alphabet": alpha}, True
             yield "ham1", {"xs": ch, "alphabet": alpha, "positions": [0, 2]}, True
     yield "ham1", {"xs": G.universe("AC", 4), "alphabet": "ACD", "positions": [3, 1]}, True
+    for kind in ("tuple", "iter", "generator", "set", "ndarray"):
+        yield "ham1", {"xs": G.universe("AC", 3), "alphabet": "ACD", "positions": [0, 2], "positions_kind": kind}, True
+    # control and white-space characters are characters like any other
+    yield "lev1", {"xs": ["A\n", "\n", "CA\nC", "A\tC", "A\x00", "\x00", "CASSLGQYF\n", "\n\n", "A A", "A\rC"], "alphabet": "AC"}, True
+    yield "ham1", {"xs": ["A\n", "\n", "CA\nC", "A\tC", "A\x00"], "alphabet": "AC"}, True
+    # hundreds of letters: 256 and more mismatches
+    for (a, b, md, _w) in (("A" * 256, "C" * 256, 2, 2), ("A" * 300, "A" * 43 + "C" * 257, 2, 2), ("A" * 256, "A" * 255 + "C", 2, 1), ("A" * 257, "C" * 256 + "A", 1, 1),
+                           ("A" * 256, "C" * 256, 1, 1), ("A" * 300, "C" * 300, 2, 2)):
+        yield "nndist", {"seq": a, "reference": [b], "maxdist": md}, True
     yield "ham1", {"xs": G.universe("AC", 3), "alphabet": "ACD", "positions": []}, True
     # alphabets of 5, 10, 20 letters; default alphabet
     for i in range(60 * TS if thorough else 8):
